@@ -53,6 +53,9 @@ def run(ctx):
         "trace_events": tv.distinct, "verdict_kinds": sorted({b["kind"] for b in bad}),
     }
     cov.update(extra.get("coverage", {}))
+    import p_boot
+    cov["bootstrap"] = p_boot.run(ctx, p_boot.K_C12, 200 if thorough else 40, "C12")
+    cov["traces_validated_against_impl"] += cov["bootstrap"]["scenarios"]
     C.write_evidence(ctx, "model_checking", cov,
                      ["modification times are set with os.Chtimes to the abstract clock (a coarse file-system clock)",
                       "a torn file is a strict prefix of what Store writes (whole-file write, no rename)"])
